@@ -148,6 +148,10 @@ def make(spec):
         supplied = INDEPENDENT["orthorhombic"]
     else:
         supplied = list(INDEPENDENT[system])
+    # the static table may be tabulated at its OWN volumes (another count than the phonon file's)
+    pvols = vols
+    if spec.get("static_nv"):
+        vols = numpy.array(VOLUME_SETS[spec["static_nv"]], float)
     indep = {p: static_value(p, vols, spec.get("static", "cubicfit"), vols) for p in PAIRS21}
     full = system_tensor(system, indep)
     table = {p: full[p] for p in supplied}
@@ -165,7 +169,8 @@ def make(spec):
                                6.3 * xx ** 0.36 * (1 - 0.03 * (xx - 1) ** 2),
                                7.7 * xx ** 0.34 * (1 + 0.05 * (xx - 1))], axis=1)
         lattice[:, 2] = V0 * xx / (lattice[:, 0] * lattice[:, 1]) * (5.1 * 6.3 * 7.7 / V0)
-    return {"vols": vols, "energies": energies, "freqs": freqs, "weights": weights, "qcoords": qcoords,
+    svols, vols = vols, pvols
+    return {"vols": vols, "svols": svols, "energies": energies, "freqs": freqs, "weights": weights, "qcoords": qcoords,
             "na": na, "nm": spec.get("nm", 1), "pve": spec.get("pve", "f"), "laws": laws, "table": table, "supplied": supplied, "lattice": lattice,
             "vref": float(vols[1]), "cellmass": float(spec.get("cellmass", 100.3887)), "system": system}
 
@@ -194,13 +199,14 @@ def phonon_file_text(ds, title="synthetic"):
 
 def static_file_text(ds, columns=None, names=None, rows=None, scale=1.0, fmt="%.10f", lattice_header=" lattice_a lattice_b lattice_c", lattice_extra="", perturb=None):
     cols = columns or list(ds["supplied"])
-    nv = len(ds["vols"])
+    svols = ds.get("svols", ds["vols"])
+    nv = len(svols)
     rows = list(range(nv)) if rows is None else rows
     mass = ds.get("cellmass_text") or f"{ds['cellmass']:.6f}"
     L = ["V_0 N cellmass synthetic", f"{ds['vref']:.8f} {nv} {mass}"]
     L.append("V " + " ".join((names[p] if names else "c%d%d" % p) for p in cols))
     for i in rows:
-        L.append(f"{ds['vols'][i]:.8f} " + " ".join(fmt % (scale * ds["table"][p][i] + (perturb or {}).get(p, 0.0)) for p in cols))
+        L.append(f"{svols[i]:.8f} " + " ".join(fmt % (scale * ds["table"][p][i] + (perturb or {}).get(p, 0.0)) for p in cols))
     if ds["lattice"] is not None:
         L.append(lattice_header)
         for i in rows:
